@@ -16,12 +16,12 @@ claim("C01", "N", N("operators are wired as regular-expression operators (shortc
 claim("C02", "N", N("fresh context per transition, handed to the recursive call, merged only on its success and appended in order; values reach user variables only through one filler that runs after the whole match (Clear once, Set each in order, error returned at once); "
       "every recorded string is a sub-slice of a command-line token or the literal \"true\"; a positional binds args[0] and returns args[1:]; only the first `--` is dropped; the vector is immutable; the in-token scan continues only past foreign flags."),
       TRUST + "offsets inside folded tokens and the choice among several derivations are not decided.",
-      TECH + "context-isolation, provenance and who-may-call rules (FSM-4/5/6/7, MAT-1/2/7, VAL-7)")
+      TECH + "context-isolation, provenance and who-may-call rules (FSM-4/5/6/7, MAT-1/2/7, VAL-1/7)")
 claim("C03", "N", N("scanner: position grows only by +1 from a value known < len, every byte read is behind such a guard on every path (with jump-threading of the closed-flag), every cycle advances; "
       "error positions come from the scanner position, a token or len(spec); parser: atom consumes on every normal return, back() only before a panic, all panics are strings converted by the recover wrapper, recursion only after a consumed opener; "
       "graph walks check-then-mark; the simplify fixpoint loop has a measure; matcher loops add a positive step; no panicking type assertion; every Cmd literal creates its maps; recursion progress per matcher (FSM-8)."),
       TRUST + "FSM-8 is violated by three constructs (recorded finding D3: env-fallback of opt/options, spec-level `--`); index safety of the option matcher's string arithmetic and stack depth on progressing recursion are not decided.",
-      TECH + "guard-dominance bounds analysis of the scanner, loop-progress and typestate rules (LEX-1/2/5, PAR-2/5/7, FSM-2/8, MAT-6/12, GLOB-6, CMD-12)")
+      TECH + "guard-dominance bounds analysis of the scanner, loop-progress and typestate rules (LEX-1/2/5, PAR-2/5/7, FSM-1/2/8, MAT-6/12, GLOB-6, CMD-12)")
 claim("C04", "N", N("the level split counts tokens up to the first alias of a direct sub-command; the level validates exactly args[:n] with its own automaton, compiled from its own declarations; a child is entered only after doInit and isAlias on that child with exactly the tokens after the alias; "
       "the hook chain is started once, at the leaf; leftovers take the rejection funnel; the version flag counts only in first position."),
       TRUST + "each level's own matching is C01/C02.",
@@ -33,7 +33,7 @@ claim("C05", "P", P("the step wiring (Before.Error = outer After, After.Success 
 claim("C06", "N", N("default stored by the constructor and captured before the environment is applied; env list tried in Fields order, empty skipped, first valid wins, multi-valued Clear/Split/TrimSpace/Set; os.Getenv has one caller reachable only from the two registration functions; "
       "command-line values: Clear once then Set in order, only for containers the command line mentioned; all 30 literals and 28 short forms carry Name/Desc/EnvVar/HideValue/SetByUser/value(); XOpt/XArg value() pairs agree; Clear stores nil."),
       TRUST + "VAL-4 is violated at values.setMultivalued (recorded finding D4: an invalid list wipes a multi-valued default); values on concrete inputs are not decided.",
-      TECH + "sibling-agreement over the declaration family, ordering and who-may-call rules (DECL-1/2/3/6/7, VAL-2/3/4/6/7, FSM-5/6)")
+      TECH + "sibling-agreement over the declaration family, ordering and who-may-call rules (DECL-1/2/3/6/7, VAL-1/2/3/4/6/7, FSM-5/6)")
 claim("C07", "P", P("every error return of the dispatch function is preceded, on every path, by the error text and the usage on stdErr and then by onError(err) on the rejecting command; no Step.Run precedes it; Run/Cli.parse return the result unchanged and install no recover; "
       "onError evaluated for 3 error classes x 3 policies; exiter/os.Exit used nowhere else; doInit errors panic; sub-commands inherit ErrorHandling; conversion errors abort the fill and are the automaton's error; output goes to stdErr/stdOut only."),
       TRUST + "that every input that should be rejected reaches a rejection site is C01/C13.",
@@ -56,7 +56,7 @@ claim("C11", "N", N("the skipped-over foreign occurrence spans exactly the token
 claim("C12", "N", N("every non-matching exit of the option matcher yields the env flag with the vector unchanged; occurrence matchers never read the env flag; the group matcher excludes an env-backed option only when len(c.Opts[o]) is unchanged across the match; "
       "the flag is the result of the env application and is cleared once the command line supplied values; EnvVar reaches the container on every declaration path."),
       TRUST + "FSM-8 is violated by the two env-fallback constructs (recorded finding D3); set inclusion on concrete inputs is not decided.",
-      TECH + "exit-classification and control-dependence rules on the option matchers (MAT-4/5/6, DECL-1/6, FSM-6/8)")
+      TECH + "exit-classification and control-dependence rules on the option matchers (MAT-4/5/6, DECL-1/6, FSM-4/6/8)")
 claim("C13", "P", P("each built-in Set calls the right strconv function on the parameter itself with the right constants, stores a conversion of result 0 only on the err==nil edge and returns the error as is; string types store the parameter unchanged; "
       "every route to a typed variable is Set (filler, env application); a Set error aborts the fill and goes through the rejection funnel; recorded strings are verbatim token slices; single-valued env values are passed to Set untrimmed."),
       TRUST + "strconv itself; 64-bit target for int(i).",
@@ -64,7 +64,7 @@ claim("C13", "P", P("each built-in Set calls the right strconv function on the p
 claim("C14", "P", P("the help scan runs first on the level's remaining arguments; State.Parse and Step.Run are reachable only when it found nothing; the help branch prints the long help, signals the sentinel, returns nil; the scan returns the index of -h/--help and -1 at the first `--` unconditionally; "
       "the version test comes first, reads only args[0] under a length guard against the declared option's names, presence is a nil test of the record Version() creates; sentinels: exit 0 or return, never 2, never panic; usage line = full path."),
       TRUST + "the interaction with an ancestor's own `--` is excluded by the property.",
-      TECH + "dominance rules on the dispatch function and scenario evaluation of the policy switch (CMD-2/3/4/5/11, HELP-1/3)")
+      TECH + "dominance rules on the dispatch function and scenario evaluation of the policy switch (CMD-2/3/4/5/6/11, HELP-1/3)")
 claim("C15", "P", P("the only store through a SetByUser pointer is the filler's, of constant true, with no guard but the nil test, for keys of the merged maps; keys enter those maps only by appending a string derived from the command line; "
       "only the accepting branch's maps reach the filler; every declaration path stores the user's pointer."),
       TRUST + "'given => true' rests on C02's residue (an occurrence on the accepting path is recorded under its container).",
